@@ -13,8 +13,8 @@ c = subprocess.run(cmd, capture_output=True, text=True, env=dict(os.environ, VER
 sh(["git", "-C", wt, "checkout", "-q", "--", "."])
 lines = [l[:300] for l in (c.stdout + c.stderr).split("\n") if "VIOLATION" in l or l.strip().startswith("->") or "KNOWN-FINDING" in l][:8]
 meta.setdefault("rechecks", []).append({"cmd": "VERIF_REPO=<worktree with patch> " + " ".join(cmd), "exit": c.returncode, "output": lines, "note": note})
-if c.returncode == 1 and not meta.get("caught"):
+if c.returncode == 1 and any("VIOLATION" in l for l in lines) and not meta.get("caught"):
     meta["missed_at_first"] = True
-meta["caught"] = c.returncode == 1
+meta["caught"] = c.returncode == 1 and any("VIOLATION" in l for l in lines)   # exit 1 without a VIOLATION line is a failed check, not a catch
 json.dump(meta, open(os.path.join(d, "meta.json"), "w"), indent=1)
 print(sid, "caught =", meta["caught"], lines[:3])
